@@ -11,6 +11,7 @@ import AkdModel.Show
 import AkdModel.Adv
 import AkdModel.Spec
 import AkdModel.Store
+import AkdModel.AdvDir
 open Akd Akd.Wire
 
 structure DState where
@@ -295,6 +296,82 @@ def stepL1 (st : DState) (toks : List String) : Option (DState × String) :=
       let p := es.foldl (Adv.applyMem (rootValue st)) p
       some (st, if verifyMembership c root p then "acc" else "rej")
     | _, _ => some (st, "err")
+  | "adv.lookup" :: u :: edits => do
+    let u ← parseHex? u
+    let es ← edits.mapM AdvDir.parseLookupEdit?
+    match st.dir.lookup c u with
+    | .ok (p0, ep, h) =>
+      let p := es.foldl (fun (acc : Except DErr LookupProof) e =>
+        match acc with
+        | .ok p => AdvDir.applyLookup c st.dir u p e
+        | .error x => .error x) (.ok p0)
+      match p with
+      | .ok p => some (st, showV Show.verifyResult (Verify.lookup c st.dir.vrf h ep u p))
+      | .error .vrfMissing => some (st, "vrf-missing")
+      | .error _ => some (st, "err")
+    | .error .vrfMissing => some (st, "vrf-missing")
+    | .error _ => some (st, "err")
+  | "adv.history" :: u :: prm :: mode :: edits => do
+    let u ← parseHex? u
+    let prm ← parseParams prm
+    let allow ← if mode == "allow" then some true else if mode == "default" then some false else none
+    let es ← edits.mapM AdvDir.parseHistEdit?
+    match st.dir.keyHistory c u prm with
+    | .ok (p0, ep, h) =>
+      let p := es.foldl (fun (acc : Except DErr HistoryProof) e =>
+        match acc with
+        | .ok p => AdvDir.applyHist c st.dir u p e
+        | .error x => .error x) (.ok p0)
+      match p with
+      | .ok p => some (st, showV (fun rs => " ".intercalate (rs.map Show.verifyResult)) (Verify.history c st.dir.vrf h ep u p prm allow))
+      | .error .vrfMissing => some (st, "vrf-missing")
+      | .error _ => some (st, "err")
+    | .error .vrfMissing => some (st, "vrf-missing")
+    | .error _ => some (st, "err")
+  | ["adv.invent", u, epoch, prm, mode] => do
+    let u ← parseHex? u
+    let epoch ← epoch.toNat?
+    let prm ← parseParams prm
+    let allow ← if mode == "allow" then some true else if mode == "default" then some false else none
+    match st.dir.epochHash c, AdvDir.invented c st.dir u epoch with
+    | .ok (ep, h), .ok p =>
+      some (st, showV (fun rs => " ".intercalate (rs.map Show.verifyResult)) (Verify.history c st.dir.vrf h ep u p prm allow))
+    | _, .error .vrfMissing => some (st, "vrf-missing")
+    | _, _ => some (st, "err")
+  | "adv.audit" :: ep :: edits => do
+    let ep ← ep.toNat?
+    let es ← edits.mapM Adv.parseAuditEdit?
+    match st.dir.audit c ep (ep + 1) with
+    | .ok ap =>
+      match ap.proofs with
+      | [pr] =>
+        let byLabel (xs : List AzksElement) : List AzksElement :=
+          xs.foldr (fun x acc =>
+            let rec ins (x : AzksElement) : List AzksElement → List AzksElement
+              | [] => [x]
+              | y :: ys => if showLabel x.label ≤ showLabel y.label then x :: y :: ys else y :: ins x ys
+            ins x acc) []
+        let case0 : Adv.AuditCase := { proof := { inserted := byLabel pr.inserted, unchanged := byLabel pr.unchanged } }
+        let cs := es.foldl Adv.applyAudit case0
+        let endEpoch := ep + 1 + cs.epochPlus
+        match st.roots.find? (fun r => r.1 = ep) with
+        | none => none
+        | some (_, start) =>
+          let endH : Option Dig :=
+            if cs.endRebuilt then
+              let ins := cs.proof.inserted.map fun x => (⟨x.label, c.leafHash x.value endEpoch⟩ : AzksElement)
+              match Auditor.rebuildRoot c (cs.proof.unchanged ++ ins) (some (endEpoch - 1)) with
+              | .ok h => some h
+              | .error _ => none
+            else (st.roots.find? (fun r => r.1 = ep + 1)).map (·.2)
+          match endH with
+          | none => if cs.endRebuilt then some (st, "err") else none
+          | some e =>
+            match Auditor.consecutive c cs.proof start e endEpoch with
+            | .ok () => some (st, "acc")
+            | .error _ => some (st, "rej")
+      | _ => some (st, "err")
+    | .error _ => some (st, "err")
   | "adv.nonmem" :: x :: edits => do
     let x ← parseLabel? x
     let es ← edits.mapM Adv.parseNonMemEdit?
